@@ -6,6 +6,7 @@
 package controls
 
 import (
+	"encoding/json"
 	"errors"
 	"io"
 	"sync"
@@ -142,6 +143,90 @@ func ReadBad(r io.Reader) ([]byte, error) {
 		return nil, errors.New("short")
 	}
 	return buf, nil
+}
+
+func RemainGood(r io.Reader, size uint32) ([]byte, error) {
+	want := int(size)
+	buf := make([]byte, want)
+	filled := 0
+	for remaining := want; remaining > 0; remaining = want - filled {
+		k, err := r.Read(buf[filled:])
+		if err != nil {
+			return nil, err
+		}
+		filled += k
+	}
+	return buf[:filled], nil
+}
+
+// the remainder is recomputed against the wrong quantity: the loop can stop early
+func RemainBad(r io.Reader, size uint32) ([]byte, error) {
+	want := int(size)
+	buf := make([]byte, want)
+	filled := 0
+	for remaining := want; remaining > 0; remaining = remaining - want {
+		k, err := r.Read(buf[filled:])
+		if err != nil {
+			return nil, err
+		}
+		filled += k
+	}
+	return buf[:filled], nil
+}
+
+type hello struct{ ID int }
+
+func NullDecodeGood(b []byte) (int, error) {
+	h := &hello{}
+	if err := json.Unmarshal(b, &h); err != nil {
+		return 0, err
+	}
+	if h == nil {
+		return 0, errors.New("null")
+	}
+	return h.ID, nil
+}
+
+func NullDecodeBad(b []byte) (int, error) {
+	h := &hello{}
+	if err := json.Unmarshal(b, &h); err != nil {
+		return 0, err
+	}
+	return h.ID, nil
+}
+
+func OnlyTimeoutGood(err error) bool {
+	for err != nil {
+		if ne, ok := err.(interface {
+			Timeout() bool
+			Temporary() bool
+		}); ok && ne.Timeout() && ne.Temporary() {
+			return true
+		}
+		u, ok := err.(interface{ Unwrap() error })
+		if !ok {
+			break
+		}
+		err = u.Unwrap()
+	}
+	return false
+}
+
+func OnlyTimeoutBad(err error) bool {
+	for err != nil {
+		if ne, ok := err.(interface{ Timeout() bool }); ok && ne.Timeout() {
+			return true
+		}
+		if _, ok := err.(interface{ Retryable() bool }); ok {
+			return true
+		}
+		u, ok := err.(interface{ Unwrap() error })
+		if !ok {
+			break
+		}
+		err = u.Unwrap()
+	}
+	return false
 }
 
 func AtLeastGood(r io.Reader, n int) ([]byte, error) {
